@@ -3,4 +3,7 @@ import engine_common
 
 
 def run(chk, replay=None):
-    engine_common.run_engine(chk, "C11", ["adv.ndjson"])
+    engine_common.run_engine(chk, "C11", ["adv.ndjson"],
+                             mc=["EngineServer.cfg", "EngineClient.cfg", "EngineClientLive.cfg"],
+                             mc_thorough=["EngineServerThorough.cfg", "EngineClientThorough.cfg"],
+                             must_fail=["EngineBadToken.cfg"])
